@@ -4,6 +4,7 @@ import (
 	"bytes"
 	"context"
 	"crypto/sha256"
+	"encoding/json"
 	"fmt"
 	"os"
 	"path/filepath"
@@ -72,6 +73,9 @@ func NewSession(repo, specDir, work string) (*Session, error) {
 	}
 	ex.AlignClosures()
 	ex.IndexFunctions()
+	if data, err := os.ReadFile(filepath.Join(specDir, "locals_baseline.json")); err == nil {
+		json.Unmarshal(data, &ex.LocalsBaseline)
+	}
 	ex.RunInits()
 	s := &Session{Ex: ex, RepoDir: repo, SpecDir: specDir, WorkDir: work, TimeoutS: 10, Parallel: 14, ContractFiles: files, IdenticalInstances: map[string]int{}}
 	s.LoadTime = time.Since(start).Seconds()
